@@ -177,7 +177,7 @@ class Scratch:
     """an initialised alembic environment in a temp dir; options set in memory on the Config"""
 
     def __init__(self, file_template=None, trunc=None, two_locations=False, recursive=False, timezone=None,
-                 sourceless=False, revision_environment=False, hooks=False):
+                 sourceless=False, revision_environment=False, hooks=False, output_encoding=None):
         self.dir = tempfile.mkdtemp(prefix="c17_")
         self.ini = os.path.join(self.dir, "alembic.ini")
         self.scripts = os.path.join(self.dir, "scripts")
@@ -205,6 +205,9 @@ class Scratch:
             # env.py of the generic template connects to the configured database: an in-memory SQLite
             self.cfg.set_main_option("revision_environment", "true")
             self.cfg.set_main_option("sqlalchemy.url", "sqlite://")
+        self.output_encoding = output_encoding
+        if output_encoding is not None:
+            self.cfg.set_main_option("output_encoding", output_encoding)
         self.hooks = bool(hooks)
         if hooks:
             # a post-write hook that leaves the file alone (what a hook does to the file is the user's program)
@@ -280,7 +283,17 @@ class Scratch:
 
     def options(self):
         return {"timezone": self.timezone, "sourceless": self.sourceless, "revision_environment": self.revision_environment,
-                "hooks": self.hooks}
+                "hooks": self.hooks, "output_encoding": self.output_encoding}
+
+    def encodable(self, texts):
+        """can every text be written in the configured output_encoding (Python's own str.encode; default utf-8)?"""
+        enc = self.output_encoding or "utf-8"
+        try:
+            for t in texts:
+                t.encode(enc)
+            return True
+        except UnicodeError:
+            return False
 
     def close(self):
         shutil.rmtree(self.dir, ignore_errors=True)
@@ -316,7 +329,8 @@ def fixed_rev_ids(ids):
 
 
 def load_error_name(e):
-    if isinstance(e, (SyntaxError, ValueError, UnicodeError)) and not isinstance(e, util.CommandError):
+    # (an *encode* error comes from writing the file, not from loading it: an ordinary - unexpected - exception of the call)
+    if isinstance(e, (SyntaxError, ValueError, UnicodeError)) and not isinstance(e, (util.CommandError, UnicodeEncodeError)):
         return "fileDoesNotLoad:" + type(e).__name__
     return rev_impl.err_name(e)
 
